@@ -74,6 +74,10 @@ impl McSystem {
         self.event_ordering_mode = mode;
     }
 
+    pub(crate) fn event_ordering_mode(&self) -> EventOrderingMode {
+        self.event_ordering_mode.clone()
+    }
+
     /// Crashes the specified node.
     pub fn crash_node<S>(&mut self, node: S)
     where
